@@ -409,24 +409,198 @@ func refLess(a, b cmpState, maxPerPeer int64) bool {
 	return false
 }
 
+// c14Trace follows a value back to where it came from across the comparator's own call tree: parameters to the
+// arguments bound at the (single, currently evaluated) call, captured variables to what the closure was made with,
+// loads of locals to the one value stored, fields of local struct values to the value the field was given.
+type c14Trace struct {
+	bind     map[*ssa.Parameter]ssa.Value
+	closures map[*ssa.Function]*ssa.MakeClosure
+}
+
+func (t *c14Trace) val(v ssa.Value, d int) ssa.Value {
+	for ; d < 60 && v != nil; d++ {
+		switch x := v.(type) {
+		case *ssa.ChangeType:
+			v = x.X
+		case *ssa.Convert:
+			v = x.X
+		case *ssa.MakeInterface:
+			v = x.X
+		case *ssa.ChangeInterface:
+			v = x.X
+		case *ssa.TypeAssert:
+			v = x.X
+		case *ssa.Extract:
+			ta, ok := x.Tuple.(*ssa.TypeAssert)
+			if !ok || x.Index != 0 {
+				return v
+			}
+			v = ta.X
+		case *ssa.Parameter:
+			a, ok := t.bind[x]
+			if !ok {
+				return v
+			}
+			v = a
+		case *ssa.FreeVar:
+			f := x.Parent()
+			mc := t.closures[f]
+			if mc == nil {
+				return v
+			}
+			var b ssa.Value
+			for i, fv := range f.FreeVars {
+				if fv == x && i < len(mc.Bindings) {
+					b = mc.Bindings[i]
+				}
+			}
+			if b == nil {
+				return v
+			}
+			v = b
+		case *ssa.UnOp:
+			if x.Op != token.MUL {
+				return v
+			}
+			switch a := t.val(x.X, d+1).(type) {
+			case *ssa.Alloc:
+				var whole []*ssa.Store
+				for _, r := range *a.Referrers() {
+					if st, ok := r.(*ssa.Store); ok && st.Addr == a {
+						whole = append(whole, st)
+					}
+				}
+				if len(whole) != 1 {
+					return v
+				}
+				v = whole[0].Val
+			case *ssa.FieldAddr:
+				r := t.field(a.X, a.Field, d+1)
+				if r == nil {
+					return v
+				}
+				v = r
+			default:
+				return v
+			}
+		case *ssa.Field:
+			r := t.fieldOfValue(x.X, x.Field, d+1)
+			if r == nil {
+				return v
+			}
+			v = r
+		default:
+			return v
+		}
+	}
+	return v
+}
+
+// field: what field f of the local struct p points to was given (nil if p is not a local struct written once).
+func (t *c14Trace) field(p ssa.Value, f int, d int) ssa.Value {
+	if d > 60 {
+		return nil
+	}
+	al, ok := t.val(p, d).(*ssa.Alloc)
+	if !ok {
+		return nil
+	}
+	var fst, whole []*ssa.Store
+	for _, r := range *al.Referrers() {
+		switch r := r.(type) {
+		case *ssa.FieldAddr:
+			if r.Field != f {
+				continue
+			}
+			for _, rr := range *r.Referrers() {
+				if st, ok := rr.(*ssa.Store); ok && st.Addr == r {
+					fst = append(fst, st)
+				}
+			}
+		case *ssa.Store:
+			if r.Addr == al {
+				whole = append(whole, r)
+			}
+		}
+	}
+	switch {
+	case len(fst) == 1 && len(whole) == 0:
+		return fst[0].Val
+	case len(fst) == 0 && len(whole) == 1:
+		return t.fieldOfValue(whole[0].Val, f, d+1)
+	}
+	return nil
+}
+
+func (t *c14Trace) fieldOfValue(sv ssa.Value, f int, d int) ssa.Value {
+	if d > 60 {
+		return nil
+	}
+	if u, ok := t.val(sv, d).(*ssa.UnOp); ok && u.Op == token.MUL {
+		return t.field(u.X, f, d+1)
+	}
+	return nil
+}
+
 func c14Comparator(c *engine.Ctx, rule string, a *allocFacts) {
 	mk := c.P.Func("allocator", "", "makePeerStatusCompare")
-	if mk == nil || len(mk.AnonFuncs) != 1 {
+	if mk == nil || len(mk.Params) != 1 {
+		c.AnchorMissing(rule, "allocator.makePeerStatusCompare")
+		return
+	}
+	tr := &c14Trace{bind: map[*ssa.Parameter]ssa.Value{}, closures: map[*ssa.Function]*ssa.MakeClosure{}}
+	var scan func(f *ssa.Function)
+	scan = func(f *ssa.Function) {
+		engine.Instrs(f, func(in ssa.Instruction) {
+			if mc, ok := in.(*ssa.MakeClosure); ok {
+				if fn, ok := mc.Fn.(*ssa.Function); ok {
+					tr.closures[fn] = mc
+				}
+			}
+		})
+		for _, an := range f.AnonFuncs {
+			scan(an)
+		}
+	}
+	for _, f := range a.fns {
+		scan(f)
+	}
+	scan(mk)
+	// the comparator: the function value the constructor returns (a closure, a bound method, a plain function)
+	var cmp *ssa.Function
+	same := true
+	engine.Instrs(mk, func(in ssa.Instruction) {
+		r, ok := in.(*ssa.Return)
+		if !ok || len(r.Results) != 1 {
+			return
+		}
+		var fn *ssa.Function
+		switch x := tr.val(r.Results[0], 0).(type) {
+		case *ssa.MakeClosure:
+			fn, _ = x.Fn.(*ssa.Function)
+		case *ssa.Function:
+			fn = x
+		}
+		if fn == nil || (cmp != nil && cmp != fn) {
+			same = false
+		}
+		cmp = fn
+	})
+	if cmp == nil || !same || len(cmp.Params) != 2 || cmp.Blocks == nil {
 		c.AnchorMissing(rule, "allocator.makePeerStatusCompare closure")
 		return
 	}
-	cmp := mk.AnonFuncs[0]
 	c.Analysed(engine.FuncName(cmp))
 	amountF := c.P.Field("allocator", "pendingAllocation", "amount")
 	idxF := c.P.Field("allocator", "pendingAllocation", "allocIndex")
-	if amountF == nil || idxF == nil || len(cmp.Params) != 2 {
+	if amountF == nil || idxF == nil {
 		c.AnchorMissing(rule, "allocator.pendingAllocation{amount,allocIndex}")
 		return
 	}
-	// which parameter does a value's access path start at?
+	// which of the two compared peers does a value's access path start at?
 	side := func(v ssa.Value) int {
-		for i := 0; i < 10 && v != nil; i++ {
-			v = engine.Strip(v)
+		for i := 0; i < 12 && v != nil; i++ {
+			v = tr.val(v, 0)
 			switch x := v.(type) {
 			case *ssa.Parameter:
 				for k, p := range cmp.Params {
@@ -435,21 +609,28 @@ func c14Comparator(c *engine.Ctx, rule string, a *allocFacts) {
 					}
 				}
 				return -1
-			case *ssa.TypeAssert:
-				v = x.X
 			case *ssa.UnOp:
 				v = x.X
 			case *ssa.FieldAddr:
 				v = x.X
 			case *ssa.IndexAddr:
 				v = x.X
-			case *ssa.Extract:
-				v = x.Tuple
 			default:
 				return -1
 			}
 		}
 		return -1
+	}
+	isLimit := func(v ssa.Value) bool {
+		b, ok := v.Type().Underlying().(*types.Basic)
+		if !ok || b.Info()&types.IsInteger == 0 {
+			return false
+		}
+		switch v.(type) {
+		case *ssa.UnOp, *ssa.Field, *ssa.FreeVar, *ssa.Parameter:
+			return tr.val(v, 0) == ssa.Value(mk.Params[0])
+		}
+		return false
 	}
 	const maxPerPeer = 10
 	vals := []cmpState{}
@@ -471,18 +652,13 @@ func c14Comparator(c *engine.Ctx, rule string, a *allocFacts) {
 	for _, sa := range vals {
 		for _, sb := range vals {
 			st := [2]cmpState{sa, sb}
-			var results []engine.EVal
-			ev := &engine.Evaluator{MaxVisits: 2}
-			ev.Input = func(v ssa.Value) (engine.EVal, bool) {
-				if fv, ok := v.(*ssa.FreeVar); ok && fv.Name() == mk.Params[0].Name() {
+			input := func(v ssa.Value) (engine.EVal, bool) {
+				if isLimit(v) {
 					return engine.EVal{K: engine.EInt, I: maxPerPeer}, true
 				}
 				u, ok := v.(*ssa.UnOp)
 				if !ok {
 					return engine.EVal{}, false
-				}
-				if fv, ok := u.X.(*ssa.FreeVar); ok && fv.Name() == mk.Params[0].Name() {
-					return engine.EVal{K: engine.EInt, I: maxPerPeer}, true
 				}
 				fa, ok := u.X.(*ssa.FieldAddr)
 				if !ok {
@@ -502,28 +678,65 @@ func c14Comparator(c *engine.Ctx, rule string, a *allocFacts) {
 				}
 				return engine.EVal{}, false
 			}
-			ev.Call = func(call *ssa.Call, get func(ssa.Value) engine.EVal) (engine.EVal, bool) {
-				if b, ok := call.Call.Value.(*ssa.Builtin); ok && b.Name() == "len" {
-					if fl, base := engine.LoadedField(call.Call.Args[0]); fl == a.pending {
-						if k := side(base); k >= 0 {
-							if st[k].pending {
-								return engine.EVal{K: engine.EInt, I: 1}, true
+			aborted := false
+			var run func(f *ssa.Function, args []engine.EVal, depth int) []engine.EVal
+			run = func(f *ssa.Function, args []engine.EVal, depth int) []engine.EVal {
+				var results []engine.EVal
+				ev := &engine.Evaluator{MaxVisits: 2}
+				ev.Input = func(v ssa.Value) (engine.EVal, bool) {
+					if p, ok := v.(*ssa.Parameter); ok && args != nil {
+						for i, fp := range f.Params {
+							if fp == p && i < len(args) && args[i].K != engine.EUnknown {
+								return args[i], true
 							}
-							return engine.EVal{K: engine.EInt, I: 0}, true
 						}
 					}
+					return input(v)
 				}
-				return engine.EVal{}, false
-			}
-			ev.Observe = func(in ssa.Instruction, get func(ssa.Value) engine.EVal) {
-				if r, ok := in.(*ssa.Return); ok {
-					results = append(results, get(r.Results[0]))
+				ev.Call = func(call *ssa.Call, get func(ssa.Value) engine.EVal) (engine.EVal, bool) {
+					if b, ok := call.Call.Value.(*ssa.Builtin); ok && b.Name() == "len" {
+						if fl, base := engine.LoadedField(call.Call.Args[0]); fl == a.pending {
+							if k := side(base); k >= 0 {
+								if st[k].pending {
+									return engine.EVal{K: engine.EInt, I: 1}, true
+								}
+								return engine.EVal{K: engine.EInt, I: 0}, true
+							}
+						}
+					}
+					// the comparison written across helpers of the package: evaluate the helper on the same state
+					sc := call.Call.StaticCallee()
+					if sc == nil || sc.Blocks == nil || depth >= 4 || engine.FuncPkgPath(sc) != engine.Module+"/allocator" {
+						return engine.EVal{}, false
+					}
+					var as []engine.EVal
+					for i, arg := range call.Call.Args {
+						as = append(as, get(arg))
+						if i < len(sc.Params) {
+							tr.bind[sc.Params[i]] = arg
+						}
+					}
+					rs := run(sc, as, depth+1)
+					if len(rs) == 1 {
+						return rs[0], true
+					}
+					return engine.EVal{}, false
 				}
+				ev.Observe = func(in ssa.Instruction, get func(ssa.Value) engine.EVal) {
+					if r, ok := in.(*ssa.Return); ok && len(r.Results) > 0 {
+						results = append(results, get(r.Results[0]))
+					}
+				}
+				ev.Run(f)
+				if ev.Aborted {
+					aborted = true
+				}
+				return results
 			}
-			ev.Run(cmp)
+			results := run(cmp, nil, 0)
 			n++
 			want := refLess(sa, sb, maxPerPeer)
-			if ev.Aborted || len(results) != 1 || results[0].K != engine.EBool {
+			if aborted || len(results) != 1 || results[0].K != engine.EBool {
 				bad = fmt.Sprintf("cannot evaluate the comparator on state a=%+v b=%+v (it is no longer a pure comparison of totals, head amounts and request indices)", sa, sb)
 				break
 			}
